@@ -68,4 +68,68 @@ def gen_write_init(tier, rng):
         yield dict(label=f'cfg={cfg} (again)', self=m, args={}, ghosts={'driver_calls': writes, 'LOGGED': LOGGED})
 
 
-GENS = {'Module.writeInitParams': gen_write_init}
+def _cfg_class():
+    from frappy.modules import Module, Parameter
+    from frappy.datatypes import FloatRange, IntRange, StringType, ArrayOf, BLOBType
+
+    class Dev(Module):
+        text = Parameter('s', StringType(maxchars=8), default='', readonly=False)
+        arr = Parameter('a', ArrayOf(FloatRange(), 0, 3), default=(), readonly=False)
+        blob = Parameter('b', BLOBType(0, 4), default=b'', readonly=False)
+        num = Parameter('n', FloatRange(0, 10), default=1, readonly=False)
+        cnt = Parameter('c', IntRange(0, 9), default=1, readonly=False)
+    return Dev
+
+
+# (parameter, configured properties, configured value): values valid under the class limits only, under the configured limits
+# only, under both, under neither; unknown property names; wrong types
+CONFIGS = [
+    ('text', {}, 'abc'), ('text', {'maxchars': 4}, 'abcdef'), ('text', {'maxchars': 16}, 'abcdefghijkl'), ('text', {'maxchars': 16}, 'x' * 20),
+    ('text', {'minchars': 3}, 'ab'), ('text', {'maxchars': 4}, 'abcd'), ('text', {}, 5), ('text', {'nosuchprop': 1}, 'a'),
+    ('arr', {}, [1, 2, 3]), ('arr', {'maxlen': 5}, [1, 2, 3, 4, 5]), ('arr', {'maxlen': 2}, [1, 2, 3]), ('arr', {'minlen': 2}, [1]),
+    ('arr', {}, [1, 2, 3, 4]), ('arr', {}, 'abc'),
+    ('blob', {'maxbytes': 8}, b'abcdef'), ('blob', {'maxbytes': 2}, b'abc'), ('blob', {}, b'abc'), ('blob', {}, 'YWJj'),
+    ('num', {'max': 5}, 7), ('num', {'max': 5}, 5), ('num', {'min': 2}, 1), ('num', {'min': 8, 'max': 2}, 5), ('num', {}, 'x'), ('num', {}, 11),
+    ('cnt', {'max': 5}, 6), ('cnt', {}, 2.5), ('cnt', {}, 9),
+    ('nosuchparam', {}, 1),
+]
+
+
+def gen_module_config(tier, rng):
+    """one configured parameter at a time (28 combinations of property overrides and values over 5 datatypes, incl. unknown names)
+    and random pairs of them: the oracle applies the overrides to a copy of the class datatype and validates the value"""
+    import types
+    from bounded import nodelib
+    from frappy.config import Param
+    combos = [[c] for c in CONFIGS]
+    for _ in range(30 if tier == 'quick' else 200):
+        a, b = rng.sample(CONFIGS, 2)
+        if a[0] != b[0]:
+            combos.append([a, b])
+    for combo in combos:
+        Dev = _cfg_class()
+        cfg, reject, values, props = {'description': 'd'}, False, {}, {}
+        for pname, overrides, value in combo:
+            cfg[pname] = Param(value, **overrides)
+            if pname not in Dev.accessibles:
+                reject = True
+                continue
+            dt = Dev.accessibles[pname].datatype.copy()
+            try:
+                for k, v in overrides.items():
+                    dt.setProperty(k, v)
+                dt.checkProperties()
+                values[pname] = dt(value)
+                for k, v in overrides.items():
+                    props[(pname, k)] = getattr(dt, k)
+            except Exception:
+                reject = True
+        srv = types.SimpleNamespace(dispatcher=types.SimpleNamespace(announce_update=lambda m, p: None),
+                                    secnode=types.SimpleNamespace(equipment_id='verif', name='node'))
+        obj = Dev.__new__(Dev)
+        yield dict(label=f'cfg={[(p, o, v) for p, o, v in combo]}', self=obj,
+                   args={'name': 'm', 'logger': nodelib.quiet_logger(), 'cfgdict': cfg, 'srv': srv},
+                   ghosts={'expect_reject': reject, 'expect_values': {} if reject else values, 'expect_props': {} if reject else props})
+
+
+GENS = {'Module.__init__': gen_module_config,'Module.writeInitParams': gen_write_init}
